@@ -65,6 +65,7 @@ extern int wl_debug;
     } while (0)
 int wl_pool_is_user(ABT_pool pool);
 ABT_sched wl_make_user_sched(int n, ABT_pool *pools);
+ABT_sched wl_make_user_sched_coop(int n, ABT_pool *pools); /* yields to its own scheduler when it finds nothing (for stacked use) */
 /* a pool made from the legacy ABT_pool_def (has is_in_pool/remove); for workloads that set up
  * their own runtime: call wl_user_pools_reset() first and wl_user_pools_check() after ABT_finalize */
 ABT_pool wl_make_legacy_pool(int failing_remove);
@@ -91,6 +92,7 @@ typedef struct wl_actor {
     int simtid;
     volatile int done;
     volatile int cur_op; /* for diagnostics */
+    int cancelled_ok;    /* the workload cancels this actor: its body need not finish */
     int nops;
     int ops[16];
     int args[16];
